@@ -51,7 +51,7 @@ ASSUME = [
     "compared and closed again",
 ]
 
-RAND_INIT = {"models": ["M1", "M2"], "base": ["M1"], "pvals": [1, 2, 3], "mvals": [4, 5]}
+RAND_INIT = {"models": ["M1", "M2"], "base": ["M1"], "pvals": [1, 2, 3], "mvals": [4, 5], "child": True}
 RAND_NAMES = ["x", "y", "z"]
 RAND_CSV = ["p.csv", "q.csv", "d/r.csv"]
 RAND_MOD = ["mo.py", "d/mo2.py"]
@@ -226,8 +226,10 @@ def init_of_cfg(cfgfile):
         m = re.search(r"^\s*%s\s*=\s*\{([^}]*)\}" % name, txt, re.M)
         items = [x.strip() for x in m.group(1).split(",") if x.strip()]
         return [json.loads(x) for x in items]
+    import re
+    child = bool(re.search(r"^\s*WithChild\s*=\s*TRUE", txt, re.M))
     return {"models": setof("Models"), "base": setof("BaseInit"), "pvals": setof("PVals"),
-            "mvals": setof("MVals")}
+            "mvals": setof("MVals"), "child": child}
 
 
 def with_kind(ops):
